@@ -83,6 +83,11 @@ func prefixesFromStr(prefixesStr string) (hashPrefixes []Prefix, err error) {
 			//
 			// TODO(a.garipov): Either remove this crutch or support such
 			// prefixes better.
+			_, err = hex.DecodeString(s)
+			if err != nil {
+				return nil, fmt.Errorf("bad hash encoding for %q", s)
+			}
+
 			s = s[:PrefixEncLen]
 		default:
 			return nil, fmt.Errorf("bad hash len %d for %q", l, s)
